@@ -111,6 +111,24 @@ def bounded_fill(rep, F, names, rule='BOUNDED-FILL'):
     return n
 
 
+def common_pad_integral(rep, F, E, names):
+    # sign handed to pad_integral derives from the number's sign
+    n_pad = 0
+    for nme in sorted(names):
+        fn = F.fns[nme]
+        for bid, t in fn.calls():
+            if prov.strip_args(cdef(t)).endswith('Formatter::pad_integral') and len(t['args']) >= 2:
+                n_pad += 1
+                srcs = E.arg_prov(fn, t, 1).all() | R.control_sources(F, E, fn, t['args'][1])
+                ok = any('.sign' in s or s.startswith('param:') for s in srcs) and not all(s.startswith('lit:') for s in srcs)
+                key = '%s|pad_integral:is_nonnegative' % fn.key
+                if ok:
+                    rep.ok('PROV-FMTROUND', key, 'sign flag derives from %s' % R.short(srcs, 4), fn.where(t['loc']['line']))
+                else:
+                    rep.violation('PROV-FMTROUND', key, 'the is_nonnegative flag handed to pad_integral does not derive from the number\'s sign: %s' % R.short(srcs), fn.where(t['loc']['line']))
+    return n_pad
+
+
 def run(ctx):
     rep = ctx.rep
     rep.explanation = ('Static MIR analysis. PROV-FMTROUND: every rounding-data construction / rounding call reachable from Display, LowerExp, UpperExp '
@@ -148,20 +166,7 @@ def run(ctx):
     nmc = moveclear.check(rep, F, names)
     rep.floor('in-place digit shifts followed by a clear', nmc, 1)
     rep.floor('functions consulting the padding limit', nb, 1)
-    # sign handed to pad_integral derives from the number's sign
-    n_pad = 0
-    for nme in sorted(names):
-        fn = F.fns[nme]
-        for bid, t in fn.calls():
-            if prov.strip_args(cdef(t)).endswith('Formatter::pad_integral') and len(t['args']) >= 2:
-                n_pad += 1
-                srcs = E.arg_prov(fn, t, 1).all() | R.control_sources(F, E, fn, t['args'][1])
-                ok = any('.sign' in s or s.startswith('param:') for s in srcs) and not all(s.startswith('lit:') for s in srcs)
-                key = '%s|pad_integral:is_nonnegative' % fn.key
-                if ok:
-                    rep.ok('PROV-FMTROUND', key, 'sign flag derives from %s' % R.short(srcs, 4), fn.where(t['loc']['line']))
-                else:
-                    rep.violation('PROV-FMTROUND', key, 'the is_nonnegative flag handed to pad_integral does not derive from the number\'s sign: %s' % R.short(srcs), fn.where(t['loc']['line']))
+    n_pad = common_pad_integral(rep, F, E, names)
     rep.floor('formatting rounding sinks', n4, 2)
     rep.floor('calls scanned on formatting paths', nc, 150)
     rep.floor('pad_integral calls', n_pad, 3)
